@@ -11,6 +11,7 @@ import (
 	"io"
 	"net/http"
 	"reflect"
+	"sort"
 	"strings"
 	"sync"
 
@@ -619,6 +620,19 @@ func twinOpt(t []string, x bool, mk *marks) core.Result {
 		impl += " flags=" + flagsTok(ctx)
 		core.Count("marks:" + mk.class())
 	}
+	{
+		var hdA, hdB http.Header
+		if a.Req {
+			hdA, hdB = reqA.Header, reqB.Header
+		} else {
+			hdA, hdB = resA.Header, resB.Header
+		}
+		if d := headerValuesDiff(hdA, hdB); d != "" {
+			r := fail("c15:header-values-differ:"+logger, "%s", d)
+			r.Impl = "differs"
+			return r
+		}
+	}
 	if d := forwardedDiff(a.Req, outA.Bytes(), outB.Bytes(), werrA, werrB); d != "" {
 		r := fail("c15:forwarded-differs:"+logger, "forwarded message differs from unlogged twin: %s", d)
 		r.Impl = "differs"
@@ -649,6 +663,30 @@ func twinOpt(t []string, x bool, mk *marks) core.Result {
 		return core.Result{Impl: impl, SkipModel: true}
 	}
 	return core.Result{Impl: impl}
+}
+
+// headerValuesDiff compares two header maps as per-name ORDERED value lists (the order of the lines
+// of one field name is part of the message; a name present with no values differs from an absent one
+// only in the map, not on the wire, and is not reported).
+func headerValuesDiff(a, b http.Header) string {
+	names := map[string]bool{}
+	for k := range a {
+		names[k] = true
+	}
+	for k := range b {
+		names[k] = true
+	}
+	var ks []string
+	for k := range names {
+		ks = append(ks, k)
+	}
+	sort.Strings(ks)
+	for _, k := range ks {
+		if !reflect.DeepEqual(append([]string{}, a[k]...), append([]string{}, b[k]...)) {
+			return fmt.Sprintf("header %q: %d value(s) %q after logging, %d value(s) %q in the unlogged twin", k, len(a[k]), a[k], len(b[k]), b[k])
+		}
+	}
+	return ""
 }
 
 // forwardedDiff compares what Write put on the wire for the logged message and for its twin:
